@@ -18,8 +18,13 @@ pub struct Scenario {
 }
 
 pub fn generate(seed: u64, tier: Tier) -> Scenario {
-    let mut inner = c01::generate(seed ^ 0xC02, tier);
     let mut rng = Rng::new(derive(seed, 2, 0));
+    if rng.chance(1, 3) {
+        if let Some(sc) = generate_simd_sweep(seed) {
+            return sc;
+        }
+    }
+    let mut inner = c01::generate(seed ^ 0xC02, tier);
     inner.pool_threads = *rng.pick(&[0usize, 0, 2, 3]);
     inner.force_wide = rng.chance(1, 3);
     // ample budget in half of the runs so that renders complete and the SIMD kernels run
@@ -27,6 +32,37 @@ pub fn generate(seed: u64, tier: Tier) -> Scenario {
         inner.alloc_limit = 128 << 20;
     }
     Scenario { inner }
+}
+
+/// "On every SIMD code path the running CPU selects": the vector kernels (squeeze, RCT, palette,
+/// upsampling, colour conversion, filters) have scalar tails whose length depends on the width
+/// modulo the lane count, so this family sweeps the width over every residue (9..=160) with at
+/// least 8 rows and at least one transform, mostly with 16-bit buffers, and renders everything.
+pub fn generate_simd_sweep(seed: u64) -> Option<Scenario> {
+    use crate::jxlgen::random::{GenConfig, random_program};
+    let mut rng = Rng::new(derive(seed, 23, 0));
+    let cfg = GenConfig { max_dim: 160, max_frames: 2, max_pixels: 160 * 40, multi_group: false, safe: true, simd_sweep: true, vardct: rng.chance(1, 5), ..GenConfig::small() }.swarm(&mut rng);
+    let cfg = GenConfig { transforms: true, squeeze: true, ..cfg };
+    let prog = random_program(&mut rng, &cfg);
+    let (bytes, _map) = prog.encode().ok()?;
+    let len = bytes.len();
+    let mut steps = vec![c01::Step::Deliver(len), c01::Step::Op(c01::Op::TryInit), c01::Step::Op(c01::Op::Finalize), c01::Step::Op(c01::Op::RenderAll)];
+    if rng.chance(1, 3) {
+        steps.push(c01::Step::Op(c01::Op::RenderAccessors(0, *rng.pick(&[1usize, 3, 7]))));
+    }
+    let inner = c01::Scenario {
+        bytes,
+        origin: format!("jxlgen-simd:{}", crate::checks::common::program_shape(&prog)),
+        faults: vec![],
+        delivery: c01::Delivery::Feed,
+        steps,
+        alloc_limit: 128 << 20,
+        keep_feeding_after_error: false,
+        dim_cap: 65536,
+        pool_threads: *rng.pick(&[0usize, 0, 2]),
+        force_wide: rng.chance(1, 4),
+    };
+    Some(Scenario { inner })
 }
 
 /// Small scenarios for the Miri leg (Miri is ~1000x slower than native): tiny valid programs that
@@ -37,7 +73,10 @@ pub fn generate_small(seed: u64) -> Option<Scenario> {
     use crate::jxlgen::random::{GenConfig, random_program};
     use crate::simio::StorageFault;
     let mut rng = Rng::new(derive(seed, 22, 0));
-    let cfg = GenConfig { max_dim: 20, max_frames: 2, max_pixels: 20 * 16, multi_group: false, noise: false, safe: true, vardct: rng.chance(1, 2), ..GenConfig::small() }.swarm(&mut rng);
+    // no VarDCT under Miri: computing the default dequantisation matrices (up to 256x256) alone takes
+    // more than 15 minutes there; VarDCT is covered by the ASan and MSan legs
+    let _ = rng.chance(1, 2);
+    let cfg = GenConfig { max_dim: 20, max_frames: 2, max_pixels: 20 * 16, multi_group: false, noise: false, safe: true, vardct: false, ..GenConfig::small() }.swarm(&mut rng);
     let prog = random_program(&mut rng, &cfg);
     let (mut bytes, map) = prog.encode().ok()?;
     if bytes.len() > 2500 {
